@@ -367,6 +367,19 @@ def register(E):
         return E.make_slice_from(E.slice_list(b) * n)
     I['bytes.Repeat'] = bytes_repeat
 
+    def bytes_indexbyte(E, args):
+        """bytes.IndexByte / strings.IndexByte: first position holding c (forks per position on symbolic content)"""
+        b, c = args
+        elems = E.slice_list(b) if type(b) is Slice else list(E.bytes_of(b))
+        for k, e in enumerate(elems):
+            if E.branch(E.val_eq(e, c)):
+                return k
+        return -1
+    I['bytes.IndexByte'] = bytes_indexbyte
+    I['strings.IndexByte'] = bytes_indexbyte
+    I['internal/bytealg.IndexByte'] = bytes_indexbyte
+    I['internal/bytealg.IndexByteString'] = bytes_indexbyte
+
     def bytes_equal(E, args):
         return v_eqbytes(E, args)
     I['bytes.Equal'] = bytes_equal
